@@ -23,7 +23,8 @@ RULE = (
     "the client: every key of the full state has the client's value, every key the client holds that the full state lacks "
     "is invisible in the client (v1, which has no visibility channel, is compared on the options the full state reports "
     "visible).  Oracle (2): after a final save, a FRESH server started on the saved file must print an initial message that "
-    "agrees with the client under the same rule.  Non-trivial = some key's value changes at least twice, or a key "
+    "agrees with the client under the same rule.  Oracle (3): right after a pure 'load' request (documented as equivalent to "
+    "restarting the server on that file) the client agrees with a fresh server started on a copy of the loaded file.  Non-trivial = some key's value changes at least twice, or a key "
     "disappears from the full state, or a load / reset follows a set.  Distinct = SHA-1."
 )
 ASSUMPTIONS = [
@@ -32,7 +33,7 @@ ASSUMPTIONS = [
 ]
 BUDGET = {"quick": {"examples": 3200}, "thorough": {"examples": 100000, "deadline_s": 1500}}
 
-CFG = gen.cfg(max_syms=12, p_range=60, p_range_cond=50, p_menu=20, p_choice=12)
+CFG = gen.cfg(max_syms=12, p_range=60, p_range_cond=50, p_menu=20, p_choice=12, p_wset=28, p_set=18, p_prompt=72, p_bare=10)
 
 
 def _json_value(d: gen.D, typ: str, kind: str):
@@ -124,6 +125,12 @@ def resolver(case, d, req, track=None):
             if isinstance(prev, dict):
                 if isinstance(prev.get("load"), str):
                     track["cur"] = prev["load"]
+                if "load" in prev and not (set(prev) - {"version", "load"}) and len(track["loads"]) < 2 and os.path.exists(track["cur"]):
+                    # a pure load: the documentation equates it with restarting the server on that file
+                    cp = os.path.join(d, "loadpoint%d.cfg" % len(track["loads"]))
+                    with open(track["cur"]) as fsrc, open(cp, "w") as fdst:
+                        fdst.write(fsrc.read())
+                    track["loads"].append((len(session.t.replies_raw), cp))
                 if "save" in prev:
                     if isinstance(prev["save"], str):
                         track["cur"] = prev["save"]
@@ -168,7 +175,7 @@ def compare(client: server.Client, full, version: int, res: Result, where: str) 
         for key, want in full[ch].items():
             if version == 1 and ch == "values" and not vis_full.get(key, True):
                 continue  # v1 reports invisible options as null / false
-            if ch == "defaults" and where == "restart" and not vis_full.get(key, True):
+            if ch == "defaults" and where in ("restart", "reload") and not vis_full.get(key, True):
                 # a user value on a currently hidden option is not written to sdkconfig (by design of the format), so
                 # the 'has a default value' flag of an INVISIBLE option may differ after a restart; only judged when visible
                 continue
@@ -208,7 +215,7 @@ def check(case) -> Result:
                 f.write(ops.render_hand_file(tree, lines))
         kpath = os.path.join(d, "Kconfig")
         final_save = os.path.join(d, "final.sdkconfig")
-        track = {"cur": sdk, "points": []}
+        track = {"cur": sdk, "points": [], "loads": []}
         reqs = [resolver(case, d, r, track) for r in case["requests"]] + [resolver(case, d, {"save": final_save}, track)]
         with kc.environ(tree.get("env") or {}):
             t = server.Session(kpath, sdk, None, version, case.get("parser", 1)).run(reqs)
@@ -233,11 +240,12 @@ def check(case) -> Result:
                     return res
                 before_keys = set(client.state["values"])
                 client.apply(rep)
-                for n_replies, cp in track["points"]:
-                    if n_replies == idx + 1 and not rep.get("error"):
-                        snap = server.Client({})
-                        snap.state = {c: dict(v) for c, v in client.state.items()}
-                        snapshots.append((snap, cp, idx))
+                for kind, pts in (("restart", track["points"]), ("reload", track["loads"])):
+                    for n_replies, cp in pts:
+                        if n_replies == idx + 1 and not rep.get("error"):
+                            snap = server.Client({})
+                            snap.state = {c: dict(v) for c, v in client.state.items()}
+                            snapshots.append((snap, cp, idx, kind))
                 for key in (rep.get("values") or {}):
                     changes[key] = changes.get(key, 0) + 1
                 rq = json.loads(raw_req)
@@ -269,7 +277,7 @@ def check(case) -> Result:
                     full2["visible"] = server.full_state(t2.kconf, 2)["visible"]
                 ok = compare(client, full2, version, res, "restart")
                 # ---- and for the saves the client itself asked for in the middle of the session ---------------------
-                for snap, cp, idx in snapshots if ok else []:
+                for snap, cp, idx, kind in snapshots if ok else []:
                     t3 = server.Session(kpath, cp, None, version, case.get("parser", 1)).run([])
                     if t3.exception is not None:
                         res.fail(exc_sig(t3.exception, "exception|restart|"), f"fresh server on the file saved by request {idx} died: {type(t3.exception).__name__}")
@@ -280,8 +288,8 @@ def check(case) -> Result:
                     full3 = {c: init3.get(c, {}) for c in ("values", "ranges", "visible", "defaults") if c in init3}
                     if version == 1:
                         full3["visible"] = server.full_state(t3.kconf, 2)["visible"]
-                    res.label("mid-session-save-checked")
-                    if not compare(snap, full3, version, res, "restart"):
+                    res.label("mid-session-save-checked" if kind == "restart" else "load-vs-restart-checked")
+                    if not compare(snap, full3, version, res, kind):
                         break
         res.nontrivial = any(v >= 2 for v in changes.values()) or disappeared or follow
         res.label(f"v{version}")
